@@ -386,6 +386,15 @@ impl Calibrations {
                     Some(calibration) => {
                         let mut instructions = calibration.instructions.clone();
                         for instruction in instructions.iter_mut() {
+                            // Swap the calibration's qubit variable for the measured qubit
+                            if let Qubit::Variable(variable) = &calibration.identifier.qubit {
+                                for qubit in instruction.get_qubits_mut() {
+                                    if matches!(qubit, Qubit::Variable(name) if name == variable) {
+                                        *qubit = measurement.qubit.clone();
+                                    }
+                                }
+                            }
+
                             match instruction {
                                 Instruction::Pragma(pragma)
                                     if pragma.name == "LOAD-MEMORY"
@@ -395,7 +404,10 @@ impl Calibrations {
                                         pragma.data = Some(target.to_quil_or_debug())
                                     }
                                 }
-                                Instruction::Capture(capture) => {
+                                Instruction::Capture(capture)
+                                    if Some(&capture.memory_reference.name)
+                                        == calibration.identifier.target.as_ref() =>
+                                {
                                     if let Some(target) = &measurement.target {
                                         capture.memory_reference = target.clone()
                                     }
